@@ -29,6 +29,14 @@ def opOfJson (j : Json) : R Op := do
   match ← asStr (← idx j 0) with
   | "cds" => return .cds (← geneOfJson (← idx j 1))
   | "area" => return .area (← areaOfJson (← idx j 1))
+  | "clear_regions" => return .clearRegions
+  | "clear_subs" => return .clearSubs (← listOf areaOfJson (← idx j 1))
+  | "clear_cands" => return .clearCands (← listOf areaOfJson (← idx j 1))
+  | "clear_protos" => return .clearProtos (← listOf areaOfJson (← idx j 1))
+  | "peek_cds" => return .peekCds
+  | "peek" => return .peekArea (← asNat (← idx j 1))
+  | "name" => return .byName (← asNat (← idx j 1))
+  | "within_regions" => return .withinRegions
   | t => throw s!"bad op {t}"
 
 def ids (gs : List Gene) : Json := toJson (gs.map (·.id))
@@ -68,39 +76,96 @@ partial def kindsWF : AreaT → Bool
     && kids.all kindsWF
 
 def opsGenes (ops : List Op) : List Gene := ops.filterMap fun | .cds g => some g | _ => none
-def opsAreas (ops : List Op) : List AreaT := ops.filterMap fun | .area a => some a | _ => none
-
 def allNodes (extra : List AreaT) (ops : List Op) : List AreaT :=
   let ns := (opsAreas ops ++ extra).flatMap nodes
   ns.foldl (fun acc a => if acc.any (·.id == a.id) then acc else acc ++ [a]) []
 
 /-- the same id always names the same object -/
-def idsConsistent (ops : List Op) : Bool :=
-  let ns := (opsAreas ops).flatMap nodes
+def idsConsistent (areas : List AreaT) : Bool :=
+  let ns := areas.flatMap nodes
   ns.all fun a => ns.all fun b => a.id != b.id ||
     (a.loc == b.loc && a.core == b.core && a.kind == b.kind && a.product == b.product
       && a.kids.map (·.id) == b.kids.map (·.id))
+
+def jLists (l : List (List Nat)) : Json := jArr (l.map jNats)
+
+def secLists (r : Rec) (aid : Nat) : List (List Nat) :=
+  [sortNats (r.section aid .pre), sortNats (r.section aid .cross), sortNats (r.section aid .post)]
 
 def obsOf (extra : List AreaT) (ops : List Op) (r : Rec) : Json :=
   let ns := allNodes extra ops
   jObj [
     ("order", ids r.genes),
     ("children", jArr (ns.map fun a => jArr [toJson a.id, jNats (sortNats (r.children a.id))])),
+    ("sections", jArr (ns.map fun a => jArr [toJson a.id, jLists (secLists r a.id)])),
     ("region", jArr ((opsGenes ops).map fun g => jArr [toJson g.id,
         match r.regionOfGene g.id with | some x => toJson x | none => Json.null])),
-    ("defs", jArr ((ns.filter (·.kind == .proto)).map fun a => jArr [toJson a.id, jNats (sortNats (r.definition a.id))]))]
+    ("defs", jArr ((ns.filter (·.kind == .proto)).map fun a => jArr [toJson a.id, jNats (sortNats (r.definition a.id))])),
+    ("log", jArr (r.log.map jLists))]
+
+/-- the nodes the record currently serves: the collections in it and their descendants -/
+def liveNodes (l : Live) : List AreaT := l.areas.flatMap nodes
+/-- a region of the record: always a fresh object, never anybody's child, so it alone decides its sections
+    (other collections also receive the section their parent chose, see design/C08.md) -/
+def ownSections (l : Live) (a : AreaT) : Bool :=
+  a.kind == .region && l.regions.any (·.id == a.id)
+
+def specSecLists (genes : List Gene) (a : AreaT) : List (List Nat) :=
+  let inside := genes.filter fun g => specContained g.loc a.loc
+  [Section.pre, Section.cross, Section.post].map fun s =>
+    sortNats ((inside.filter fun g => specSection a.loc g.loc == s).map (·.id))
 
 def specObs (extra : List AreaT) (ops : List Op) : Json :=
+  let l := liveAfter ops
   let ns := allNodes extra ops
-  let genes := opsGenes ops
-  let regions := (opsAreas ops).filter (·.kind == .region)
-  -- an area is served by the record once it, or an area it is a child of, has been added
-  let reach := (opsAreas ops).flatMap nodes
-  let ns := ns.map fun a => (a, reach.any (·.id == a.id))
+  let live := liveNodes l
+  let ns := ns.map fun a => (a, live.any (·.id == a.id))
   jObj [
-    ("children", jArr (ns.map fun (a, live) => jArr [toJson a.id, jNats (if live then sortNats (specChildren genes a) else [])])),
-    ("region", jArr (genes.map fun g => jArr [toJson g.id, jNats (sortNats (specRegions regions g))])),
-    ("defs", jArr ((ns.filter (·.1.kind == .proto)).map fun (a, live) => jArr [toJson a.id, jNats (if live then sortNats (specDefinition genes a) else [])]))]
+    ("children", jArr (ns.map fun (a, alive) => jArr [toJson a.id,
+        if alive then jNats (sortNats (specChildren l.genes a)) else Json.null])),
+    ("sections", jArr (ns.map fun (a, _) => jArr [toJson a.id,
+        if ownSections l a then jLists (specSecLists l.genes a) else Json.null])),
+    ("region", jArr (l.genes.map fun g => jArr [toJson g.id, jNats (sortNats (specRegions l.regions g))])),
+    ("defs", jArr ((ns.filter (·.1.kind == .proto)).map fun (a, alive) => jArr [toJson a.id,
+        if alive then jNats (sortNats (specDefinition l.genes a)) else Json.null]))]
+
+def sameSet (a b : List Nat) : Bool := sortNats a == sortNats b
+
+/-- the spec's verdict on what one observing call returned (`out`), given what is alive at that moment -/
+def checkOut (l : Live) (op : Op) (out : List (List Nat)) : Bool :=
+  match op, out with
+  | .peekCds, [got] =>
+    let gs := got.filterMap fun i => l.genes.find? (·.id == i)
+    gs.length == got.length && sameSet got (l.genes.map (·.id)) && distinctIds got && specSorted gs
+  | .peekArea aid, [all, pre, cross, post] =>
+    match (liveNodes l).find? (·.id == aid) with
+    | none => true
+    | some d =>
+      sameSet all (specChildren l.genes d) && distinctIds all
+      && sameSet (pre ++ cross ++ post) all
+      && (!ownSections l d || [sortNats pre, sortNats cross, sortNats post] == specSecLists l.genes d)
+  | .byName gid, [[i, s, e]] =>
+    i == gid && l.genes.any fun g => g.id == gid && g.loc.start.toNat == s && g.loc.end.toNat == e
+  | .withinRegions, [got] =>
+    got == sortNats ((l.genes.filter fun g => l.regions.any fun a => specContained g.loc a.loc).map (·.id))
+  | _, _ => false
+where distinctIds (l : List Nat) : Bool := (sortNats l).length == l.length
+
+def isPeek : Op → Bool
+  | .peekCds | .peekArea _ | .byName _ | .withinRegions => true
+  | _ => false
+
+/-- spec verdicts for the implementation's log, one per observing call, in order -/
+def checkLog (ops : List Op) (log : List (List (List Nat))) : List Bool :=
+  let rec go (l : Live) : List Op → List (List (List Nat)) → List Bool
+    | [], _ => []
+    | op :: rest, log =>
+      if isPeek op then
+        match log with
+        | out :: more => checkOut l op out :: go l rest more
+        | [] => [false]
+      else go (l.step op) rest log
+  go {} ops log
 
 def handle (j : Json) : R Json := do
   let f ← strF j "f"
@@ -132,15 +197,19 @@ def handle (j : Json) : R Json := do
     let extra ← match j.getObjVal? "areas" with
       | .ok v => listOf areaOfJson v
       | .error _ => pure []
+    let implLog ← match j.getObjVal? "impl_log" with
+      | .ok v => listOf (listOf (listOf asNat)) v
+      | .error _ => pure []
     let genes := opsGenes ops
     let areas := opsAreas ops
     let scope := genes.all (geneOK len) && distinct (genes.map (·.id))
       && genes.all (fun g => genes.all fun h => g.id == h.id || g.loc != h.loc)
       && areas.all (fun a => kidsInside a && kindsWF a && (nodes a).all fun n => locOK len n.loc && locOK len n.core)
-      && idsConsistent (ops ++ extra.map Op.area) && distinct (areas.map (·.id))
+      && idsConsistent (areas ++ extra)
     return jObj [("model", eJson (obsOf extra ops) (run len ops)),
                  ("model2", eJson (obsOf extra ops) (run len ops2)),
                  ("spec", specObs extra ops),
+                 ("log_ok", toJson (checkLog ops implLog)),
                  ("scope", toJson scope)]
   | _ => throw s!"C08: unknown case kind {f}"
 
